@@ -30,9 +30,14 @@ def run(ctx: Ctx):
                                                                         StratOps=[0, 1], **dict(small, MaxOps=2, RelDelays=[1])))
     groups = {}
     bi = 0
-    for k, strat in enumerate(("continue", "pause")):
+    # (third configuration: the error strategy is a setting of the SIMULATOR: it survives a re-initialisation, so the faults of a second
+    #  replication are contained under the strategy chosen before the first, InitializeWith leaves strat unchanged)
+    for k, strat in enumerate(("continue", "pause", "continue")):
         cs = dc.consts(MaxId=7, MaxOps=2, Prios=[5], RelDelays=[0, 1, 2], AbsTimes=[], BadKinds=[], Cmds=CMDS, Bounds=[1, 2, 3, 4],
                        MaxCmds=8, EndT=4, WarmT=2, AllowFaults=True, Strategy=strat, StratOps=[0, 1], HStopOps=True)
+        if k == 2:
+            cs = dc.consts(MaxId=5, MaxOps=1, Prios=[5], RelDelays=[0, 1, 2], AbsTimes=[], BadKinds=[], Cmds=["Start", "RunUpTo"], Bounds=[2, 4],
+                           MaxCmds=6, MaxInits=2, EndT=4, WarmT=2, AllowFaults=True, Strategy=strat, StratOps=[], HStopOps=False)
         for beh in dc.simulate(ctx, f"DEVS faults {strat}", cs, num=ctx.pick(120, 1500), depth=60, seed=ctx.seed + 50 + k):
             conc = dd.CONCS_OFF[bi % len(dd.CONCS_OFF)]
             real_strat = strat if strat == "pause" else ("continue", "warn_continue")[bi % 2]
@@ -58,7 +63,8 @@ def run(ctx: Ctx):
         strat = ("continue", "warn_continue", "pause")[i % 3]
         end_t, warm_t = ctx.rng.choice([(4, 2), (6, 0)])
         ctl = dc.random_run(ctx, ctx.rng, conc, end_t, warm_t, strat, cmds=CMDS, ncmds=ctx.rng.choice([3, 6, 10]),
-                            maxev=ctx.rng.choice([6, 12]), p_fault=ctx.rng.choice([0.15, 0.4, 1.0]), p_strat=ctx.rng.choice([0.0, 0.3]))
+                            maxev=ctx.rng.choice([6, 12]), p_fault=ctx.rng.choice([0.15, 0.4, 1.0]), p_strat=ctx.rng.choice([0.0, 0.3]),
+                            reinit=i % 4 == 1)        # (a quarter of the runs re-initialise: the strategy in force must survive)
         ctx.evaluations += 1
         if ctl.errors:
             ctx.violation(dc.err_key(ctl.errors), f"random run {i}: {ctl.errors}", {"trace": dd.clean_trace(ctl.trace)})
